@@ -329,6 +329,30 @@ func (e *explorer[T, A]) writeOps(m *mview[T]) []wop[T, A] {
 			}
 		}})
 	}
+	// CopyFrom of a smaller source (it fills the leading corner: element idx of the source goes to element idx)
+	if n > 0 {
+		for _, which := range []string{"last", "first", "all"} {
+			small := cp(shape)
+			changed := false
+			for d := range small {
+				if small[d] > 1 && (which == "all" || (which == "last" && d == len(small)-1) || (which == "first" && d == 0)) {
+					small[d]--
+					changed = true
+				}
+			}
+			if !changed {
+				continue
+			}
+			ops = append(ops, wop[T, A]{fmt.Sprintf("CopyFrom(smaller source %v)", small), "CopyFrom-smaller", func(v A, mm *mview[T]) {
+				for _, src := range e.sources(small, 900) {
+					v.CopyFrom(src.arr)
+					for k := 0; k < product(small); k++ {
+						mm.set(unrank(k, small), src.vals[k])
+					}
+				}
+			}})
+		}
+	}
 	return ops
 }
 
